@@ -394,6 +394,8 @@ def run(ctx, tier):
     results += page_kinds(ctx)
     results += run_length(ctx)
     results += c02.cow_free_set(ctx, rule='C05.cow.free-set')
+    import c09
+    results += c09.writer_reads_after_lock(ctx, rule='C05.writer-snapshot')
     for r in results:
         if r.rule.startswith('C02.cow.write-set'):
             r.rule = 'C05.write-set-complete'
@@ -406,5 +408,5 @@ def run(ctx, tier):
             'allocate -> snapshot in dominance order, count and copied list from one snapshot; (high-water / freelist-ptr / root-ptr) the header\'s num_pages, freelist_page and root '
             'derive from the allocator\'s final mark, the newly allocated free-list page and the spill of the root bucket (rebalance before spill); (write-set-complete) commit writes '
             'exactly the allocation map; (serialiser-total, reader-writer-tables) every element / page-header field is assigned and every field read is one that is written; (page-kinds) '
-            'every stored page kind is handled by the built-in check and the tree walkers; (run-length) every run length derived from Page.overflow is overflow + 1.'),
+            'every stored page kind is handled by the built-in check and the tree walkers; (run-length) every run length derived from Page.overflow is overflow + 1; (writer-snapshot) a writer takes header and free list as one snapshot under the writer lock.'),
         assumptions=['the built-in check and the tree walkers are the only consumers of page kinds'])
